@@ -5,6 +5,7 @@ import os
 import re
 
 VERIF = os.path.dirname(os.path.dirname(os.path.abspath(__file__)))
+FC = json.load(open(os.path.join(VERIF, "seeded", "first_contact.json")))
 rows = []
 for d in sorted(glob.glob(os.path.join(VERIF, "seeded", "*"))):
     mp = os.path.join(d, "meta.json")
@@ -24,8 +25,10 @@ for d in sorted(glob.glob(os.path.join(VERIF, "seeded", "*"))):
                 break
         det.append("%s: %s%s" % (c, "**caught**" if r.get("exit") == 1 else "missed" if r.get("exit") == 0 else "exit %s" % r.get("exit"),
                                  (" (`%s`)" % sig[:60]) if sig and r.get("exit") == 1 else ""))
-    fp = m.get("verif_first_pass")
-    first = ("caught" if fp["caught"] else "missed") if fp else ("missed" if m.get("verif_history") else "caught")
+    fp = FC.get(os.path.basename(d))
+    first = ("caught" if fp["caught"] else "missed") if fp else "?"
+    if fp and fp.get("note"):
+        det.append(fp["note"])
     rows.append("| %s | %s | %s | %s | %s | %s |" % (os.path.basename(d), (m.get("title") or "")[:90].replace("|", "/"),
                                                   ", ".join(os.path.basename(f) for f in m.get("files_touched", []))[:60],
                                                   "yes" if ok else "partly: %s" % json.dumps(conf)[:60], first, "; ".join(det)))
